@@ -21,6 +21,7 @@ EXPLANATION = (
     "associated data is IV || header.encode() of the packet it returns, with the nonce of that header. R5: decryption is attempted only on "
     "inputs of at least the tag length. R6: the session used was keyed by a handshake whose signature was verified under a key bound to the claimed id, "
     "and sessions are created only through that path (C01's rules R1-R3, re-evaluated here because C02's first sentence rests on them).")
+EXPLANATION += (' Added while testing (DESIGN 7.4): R3 also requires NodeAddress - the key of the session, request and challenge tables - to compare structurally (derived PartialEq, or a hand-written eq over every field); R6 includes C01.R5 (what verify_authentication_nonce accepts); R7: key material is built only in the two handshake constructors and only moved whole.')
 NOT_DECIDED = ["that no corruption of a datagram yields a different delivered message (needs AES-GCM unforgeability and the injectivity of the codecs, C05/C06)",
                "the pairing of the select! branches of RecvHandler::start with their receive buffers beyond buffer distinctness"]
 TRUSTED = ["AES-128-GCM is an unforgeable AEAD", "tokio mpsc channels deliver what was sent"]
